@@ -326,8 +326,8 @@ pub fn c07(ctx: &Ctx, rep: &mut Report) {
         .into();
     rep.assumptions = sim_assumptions();
     let t = ctx.tier;
-    ctx.prop(rep, "real-peers", t.pick(40_000, 1_500_000), 300, c07_real, run_c07);
-    ctx.prop(rep, "raw-rejections", t.pick(20_000, 500_000), 300, c07_raw, run_c07_raw);
+    ctx.prop(rep, "real-peers", t.pick(40_000, 1_500_000), 300, || with_keepalive(c07_real()), run_c07);
+    ctx.prop(rep, "raw-rejections", t.pick(20_000, 500_000), 300, || with_keepalive(c07_raw()), run_c07_raw);
     ctx.enumerate(
         rep,
         "initial-credit",
@@ -652,7 +652,7 @@ pub fn c06(ctx: &Ctx, rep: &mut Report) {
     rep.assumptions = sim_assumptions();
     rep.assumptions.push("ids are reused only after both applications let go of the old stream (the property's precondition); reuse while one application still holds a dead stream handle is not generated".into());
     let t = ctx.tier;
-    ctx.prop(rep, "cycles", t.pick(25_000, 800_000), 300, c06_case, run_c06);
+    ctx.prop(rep, "cycles", t.pick(25_000, 800_000), 300, || with_keepalive(c06_case()), run_c06);
     ctx.prop(rep, "raw-probe", t.pick(20_000, 400_000), 200, c06_raw_case, run_c06_raw);
 }
 
@@ -906,7 +906,7 @@ pub fn c15(ctx: &Ctx, rep: &mut Report) {
     rep.assumptions = sim_assumptions();
     rep.assumptions.push("the responder drops a BindRequest only as the 'drop' answer; after reply() the request object is kept until the responder ends (BindRequest::drop always sends a Reset, documented behaviour)".into());
     let t = ctx.tier;
-    ctx.prop(rep, "binds", t.pick(40_000, 1_200_000), 300, c15_case, run_c15);
+    ctx.prop(rep, "binds", t.pick(40_000, 1_200_000), 300, || with_keepalive(c15_case()), run_c15);
     ctx.enumerate(
         rep,
         "reuse-probe",
@@ -1077,5 +1077,5 @@ pub fn c11(ctx: &Ctx, rep: &mut Report) {
                 Non-trivial = a host or payload at a boundary (host 0/1/255/>255, payload 0-3) or a burst larger than the buffer. Distinct = distinct case value."
         .into();
     rep.assumptions = sim_assumptions();
-    ctx.prop(rep, "datagrams", ctx.tier.pick(40_000, 1_200_000), 300, c11_case, run_c11);
+    ctx.prop(rep, "datagrams", ctx.tier.pick(40_000, 1_200_000), 300, || with_keepalive(c11_case()), run_c11);
 }
